@@ -23,8 +23,10 @@ package mon
 //     Containers, other shape types, explicit sizes/positions, multi-line and non-ASCII
 //     labels (the canvas is indexed by byte offsets) are not judged (counted).
 //
-// Signatures name the shape context (root / in-container / grid-cell / sequence) so that
-// findings stay distinguishable.
+// Signatures of label failures carry a trigger class evaluated on the diagram (label wider
+// than the laid-out box / label made of line-art characters / board has non-ASCII text /
+// board has connection labels / board has connections / none) and the shape context
+// (root / in-container / grid-cell / sequence) so that findings stay distinguishable.
 
 import (
 	"bytes"
@@ -338,6 +340,17 @@ func c32Board(res *run.Result, d *d2target.Diagram, g *d2graph.Graph) {
 		res.Inc("vacuous_no_graph_for_board")
 		return
 	}
+	boardNonASCII, boardConnLabels := false, false
+	for r := range texts {
+		if r >= 0x80 {
+			boardNonASCII = true
+		}
+	}
+	for _, cn := range d.Connections {
+		if cn.Label != "" || cn.SrcLabel != nil && cn.SrcLabel.Label != "" || cn.DstLabel != nil && cn.DstLabel.Label != "" {
+			boardConnLabels = true
+		}
+	}
 	objs := map[string]*d2graph.Object{}
 	for _, o := range g.Objects {
 		objs[o.AbsID()] = o
@@ -389,10 +402,23 @@ func c32Board(res *run.Result, d *d2target.Diagram, g *d2graph.Graph) {
 			ctx += "+icon"
 		}
 		// trigger class of a failure (evaluated on the diagram, not on the output)
-		trigger := ""
-		if len(s.Label)+2 > int(math.Round(float64(s.Width)/9.75)) {
+		// trigger class of a failure: predicates on the diagram (not on the output), in
+		// priority order
+		trigger := "none:" + ctx
+		switch {
+		case len(s.Label)+2 > int(math.Round(float64(s.Width)/9.75)):
 			// the renderer widens the box to len(label)+2 cells beyond its laid-out width
 			trigger = "label-wider-than-laid-out-box"
+		case strings.Trim(s.Label, "|-+<>^v.'`_/\\*oO@X~ ") == "":
+			// the route drawer treats such cells as line art and redraws them
+			trigger = "label-of-line-art-characters"
+		case boardNonASCII:
+			// the canvas is indexed by byte offsets: multi-byte text shifts/damages cells
+			trigger = "board-has-non-ascii-text"
+		case boardConnLabels:
+			trigger = "board-has-connection-labels:" + ctx
+		case len(d.Connections) > 0:
+			trigger = "board-has-connections:" + ctx
 		}
 		names := make([]string, 0, len(outs))
 		for name := range outs {
@@ -411,9 +437,6 @@ func c32Board(res *run.Result, d *d2target.Diagram, g *d2graph.Graph) {
 			}
 			if !found {
 				how, where := c32Overwriter(out, s.Label, d)
-				if trigger != "label-wider-than-laid-out-box" {
-					trigger = how + ":" + ctx
-				}
 				res.Viol("C32.label-missing", "C32.label-missing:"+trigger, fmt.Sprintf("label %q of %s %s (%dx%d at %d,%d; %s) is not a substring of any %s output line; best partial match %s (%s):\n%s", s.Label, s.Type, s.ID, s.Width, s.Height, s.Pos.X, s.Pos.Y, ctx, name, where, how, trunc(string(out), 1500)))
 				break // one report per shape; the other charset fails alike
 			}
